@@ -1,5 +1,6 @@
 import PMH.Props.C02
 import PMH.Proofs.PmhLaws
+import PMH.Proofs.PmhColl
 /-!
 # C01 — ProbMinHash estimates the probability-Jaccard index J_P
 
@@ -51,5 +52,84 @@ with probability `a/(a+b)` — for a single weighted set, position holds `d` wit
 theorem race_winner {a b : ℝ} (ha : 0 < a) (hb : 0 ≤ b) :
     ∫ t in Set.Ioi (0 : ℝ), a * Real.exp (-(a + b) * t) = a / (a + b) :=
   race_winner_integral ha hb
+
+
+/-! ### the signature is the consistent sample; equal weights: exactly unbiased -/
+section Sample
+open PMH.Race PMH.P3 PMH.C02 PMH.PmhColl
+variable {K G : Type} [Field K] [LinearOrder K] [IsStrictOrderedRing K]
+
+/-- **C01 (d)** ProbMinHash3/3a/3aSha: position `p` of the signature holds the item whose first hit of `p`
+(value `sc3` = first-hit time / weight) is the earliest — for any history over the weighted set `A` -/
+theorem pmh3_position_holds_earliest [Inhabited K] (top : K) (init m : ℕ) (t : TSrc K G) (hn : P3.Nice t m) (gen : ℕ → G)
+    (okW : K → Bool) (fuel : ℕ) (ops : List (Op K)) (hgood : GoodOps okW ops) (s : PMH3 K G)
+    (e : runNew t gen okW fuel top m init ops = .ok s) (A : Finset (ℕ × K)) (hA : A.Nonempty) (hpairs : pairs ops = ↑A)
+    (hhit : ∀ d ∈ A, HitsAll t m d.1 d.2 (gen d.1)) (p : ℕ) (hp : p < m) (htop : ∀ d ∈ A, sc3 t gen d p < top)
+    (hinj : Set.InjOn (fun d => sc3 t gen d p) ↑A) :
+    s.sig.getD p init = (CS.argmin (fun d => sc3 t gen d p) A).1 :=
+  pmh3_sig_is_argmin top init m t hn gen okW fuel ops hgood s e A hA hpairs hhit p hp htop hinj
+
+/-- **C01 (e)** two weighted sets (each with its own weights) collide at `p` iff the same item is earliest in both -/
+theorem pmh3_collision_iff_same_earliest [Inhabited K] (top : K) (init m : ℕ) (t : TSrc K G) (hn : P3.Nice t m) (gen : ℕ → G)
+    (okW : K → Bool) (fa fb : ℕ) (opsA opsB : List (Op K)) (hga : GoodOps okW opsA) (hgb : GoodOps okW opsB) (a b : PMH3 K G)
+    (ea : runNew t gen okW fa top m init opsA = .ok a) (eb : runNew t gen okW fb top m init opsB = .ok b)
+    (A B : Finset (ℕ × K)) (hA : A.Nonempty) (hB : B.Nonempty) (hpa : pairs opsA = ↑A) (hpb : pairs opsB = ↑B)
+    (hhit : ∀ d ∈ A ∪ B, HitsAll t m d.1 d.2 (gen d.1)) (p : ℕ) (hp : p < m) (htop : ∀ d ∈ A ∪ B, sc3 t gen d p < top)
+    (hinjA : Set.InjOn (fun d => sc3 t gen d p) ↑A) (hinjB : Set.InjOn (fun d => sc3 t gen d p) ↑B) :
+    a.sig.getD p init = b.sig.getD p init ↔
+      (CS.argmin (fun d => sc3 t gen d p) A).1 = (CS.argmin (fun d => sc3 t gen d p) B).1 :=
+  pmh3_collision_iff top init m t hn gen okW fa fb opsA opsB hga hgb a b ea eb A B hA hB hpa hpb hhit p hp htop hinjA hinjB
+
+/-- **C01 (f)** equal weights: for every finite relabelling-closed family Ω of tie-free generator assignments,
+`#{ω | sigA[p] = sigB[p]} · |A ∪ B| = |A ∩ B| · #Ω`: the collision probability is exactly the Jaccard index
+(= J_P for equal weights), every `m ≥ 2`, every position (variants 3, 3a, 3aSha) -/
+theorem pmh3_equal_weights_unbiased {ι : Type} [Fintype ι] [DecidableEq ι] [Inhabited ι] (top : K) (init m : ℕ)
+    (t : TSrc K G) (hn : P3.Nice t m) (okW : K → Bool) (idOf : ι → ℕ) (hid : Function.Injective idOf) (w : K) (hw : 0 < w)
+    (hok : okW w = true) (Ω : Finset (ι → G)) (hΩ : CS.PermClosed Ω) (p : ℕ) (hp : p < m)
+    (hhit : ∀ r ∈ Ω, ∀ d, HitsAll t m (idOf d) w (r d))
+    (hinj : ∀ r ∈ Ω, Function.Injective (fun d => firstHitVal t w (r d) p))
+    (htop : ∀ r ∈ Ω, ∀ d, firstHitVal t w (r d) p < top)
+    {A B : Finset ι} (hA : A.Nonempty) (hB : B.Nonempty) (hAB : A ∪ B = Finset.univ)
+    (fa fb : (ι → G) → ℕ) (opsA opsB : (ι → G) → List (Op K))
+    (hpa : ∀ r ∈ Ω, pairs (opsA r) = ↑(A.image (fun d => (idOf d, w))))
+    (hpb : ∀ r ∈ Ω, pairs (opsB r) = ↑(B.image (fun d => (idOf d, w))))
+    (a b : (ι → G) → PMH3 K G)
+    (ea : ∀ r ∈ Ω, runNew t (genOf idOf r) okW (fa r) top m init (opsA r) = .ok (a r))
+    (eb : ∀ r ∈ Ω, runNew t (genOf idOf r) okW (fb r) top m init (opsB r) = .ok (b r)) :
+    (Ω.filter (fun r => (a r).sig.getD p init = (b r).sig.getD p init)).card * (A ∪ B).card = (A ∩ B).card * Ω.card :=
+  pmh3_equal_weights_collision_count top init m t hn okW idOf hid w hw hok Ω hΩ p hp hhit hinj htop hA hB hAB fa fb opsA opsB hpa hpb a b ea eb
+
+/-- **C01 (g)** single set, equal weights: every position holds each item for exactly `#Ω / n` assignments (`w_d/Σw = 1/n`) -/
+theorem pmh3_equal_weights_single_set_law {ι : Type} [Fintype ι] [DecidableEq ι] [Inhabited ι] (top : K) (init m : ℕ)
+    (t : TSrc K G) (hn : P3.Nice t m) (okW : K → Bool) (idOf : ι → ℕ) (hid : Function.Injective idOf) (w : K) (hw : 0 < w)
+    (hok : okW w = true) (Ω : Finset (ι → G)) (hΩ : CS.PermClosed Ω) (p : ℕ) (hp : p < m)
+    (hhit : ∀ r ∈ Ω, ∀ d, HitsAll t m (idOf d) w (r d))
+    (hinj : ∀ r ∈ Ω, Function.Injective (fun d => firstHitVal t w (r d) p))
+    (htop : ∀ r ∈ Ω, ∀ d, firstHitVal t w (r d) p < top)
+    (fa : (ι → G) → ℕ) (opsA : (ι → G) → List (Op K))
+    (hpa : ∀ r ∈ Ω, pairs (opsA r) = ↑((Finset.univ : Finset ι).image (fun d => (idOf d, w))))
+    (a : (ι → G) → PMH3 K G)
+    (ea : ∀ r ∈ Ω, runNew t (genOf idOf r) okW (fa r) top m init (opsA r) = .ok (a r)) (d : ι) :
+    (Ω.filter (fun r => (a r).sig.getD p init = idOf d)).card * Fintype.card ι = Ω.card :=
+  pmh3_equal_weights_position_law top init m t hn okW idOf hid w hw hok Ω hΩ p hp hhit hinj htop fa opsA hpa a ea d
+
+/-- **C01 (h)** the same exact unbiasedness for ProbMinHash2 (an item's m points cover every position exactly once) -/
+theorem pmh2_equal_weights_unbiased {ι : Type} [Fintype ι] [DecidableEq ι] [Inhabited ι] (top : K) (init m : ℕ) (hm : 1 ≤ m)
+    (t : P2.TSrc2 K G) (offsetOf : K → ℕ → ℕ) (unif : UInt64 → K) (hn : P2.Nice2 t offsetOf unif)
+    (idOf : ι → ℕ) (hid : Function.Injective idOf) (w : K) (hw : 0 < w)
+    (Ω : Finset (ι → G)) (hΩ : CS.PermClosed Ω) (p : ℕ) (hp : p < m)
+    (hinj : ∀ r ∈ Ω, Function.Injective (fun d => val2 t offsetOf unif m w (r d) p))
+    (htop : ∀ r ∈ Ω, ∀ d, val2 t offsetOf unif m w (r d) p < top)
+    {A B : Finset ι} (hA : A.Nonempty) (hB : B.Nonempty) (hAB : A ∪ B = Finset.univ)
+    (itemsA itemsB : (ι → G) → List (ℕ × K))
+    (hsa : ∀ r ∈ Ω, ∀ x, x ∈ itemsA r ↔ x ∈ A.image (fun d => (idOf d, w)))
+    (hsb : ∀ r ∈ Ω, ∀ x, x ∈ itemsB r ↔ x ∈ B.image (fun d => (idOf d, w)))
+    (a b : (ι → G) → PMH2 K)
+    (ea : ∀ r ∈ Ω, run2 t (genOf idOf r) offsetOf unif (PMH2.new top m init) (itemsA r) = .ok (a r))
+    (eb : ∀ r ∈ Ω, run2 t (genOf idOf r) offsetOf unif (PMH2.new top m init) (itemsB r) = .ok (b r)) :
+    (Ω.filter (fun r => (a r).sig.getD p init = (b r).sig.getD p init)).card * (A ∪ B).card = (A ∩ B).card * Ω.card :=
+  pmh2_equal_weights_collision_count top init m hm t offsetOf unif hn idOf hid w hw Ω hΩ p hp hinj htop hA hB hAB
+    itemsA itemsB hsa hsb a b ea eb
+end Sample
 
 end PMH.C01
